@@ -35,6 +35,9 @@ var unicodeAtoms = []string{
 	"\ufb01", "\ufb00", "\ufb03", "\u01c4", "\u01c5", "\u01c6", "\u0132",
 	// joiners and default ignorables
 	"\u200d", "\u200c", "\u0915\u094d\u200d", "\u0915\u094d\u200c\u0937", "\u00ad", "\u034f", "\u180b", "\ufe0f", "\u2060", "\u200b", "\ufeff", "\u200e", "\u202e",
+	// letter-like symbols (bidi class L) whose compatibility mapping is a
+	// right-to-left letter
+	"\u2135", "\u2136", "\u2137", "\u2138", "\u2136a", "a\u2136",
 	// right-to-left letters and digits
 	"\u05d0", "\u05d1\u05d2", "\u0628", "\u0627\u0644", "\u0661", "\u06f1", "\u05d01", "1\u05d0",
 	// spaces
@@ -58,6 +61,7 @@ var domainAtoms = []string{
 	"xn--bcher-kva.example", "XN--BCHER-KVA.example", "xn--fa-hia.de", "xn--nxasmq6b", "xn--e1afmkfd.xn--p1ai", "xn--80ak6aa92e.com", "xn--", "xn--a", "xn---", "xn--0", "xn--zz", "xn--a-", "xn--ls8h.la", "xn--bcher-kva.", "xn--4ca.xn--4ca", "xn--mnchen-3ya", "xn--MNCHEN-3ya", "xn--ab", "xn--\u00fc",
 	"127.0.0.1", "1.2.3.4", "255.255.255.255", "256.1.1.1", "1.2.3", "01.2.3.4", "1.2.3.4.", "\uff11.2.3.4", "0x7f.1", "1.2.3.4.5",
 	"[::1]", "[::]", "[2001:db8::ff00:42:8329]", "[2001:DB8::1]", "[0:0:0:0:0:0:0:1]", "[::ffff:1.2.3.4]", "[1.2.3.4]", "::1", "[::1", "::1]", "[fe80::1%25eth0]", "[fe80::1%eth0]", "[::1].", "[]", "[:]", "[::g]",
+	"\u2136a", "a\u2137.example", "\u2135\u2136", "\u2138", "1\u2136",
 	".", "..", "...", "a.", "a..", "a...", ".a", "a..b", "2.", "2..", ".\u00ad", "\u00ad.", "a.\u00ad", "a\u3002", "a.\u3002", "a\u3002.", "a\uff0e", "\u3002", "a.\u200b",
 }
 
